@@ -121,119 +121,489 @@ func c16LitOf(f Fact, isRoot func(ssa.Value) bool) (c16Lit, bool) {
 // ---------------------------------------------------------------------------------------------
 // R6 validation table
 
+// c16VFact is a path fact of the validation code expressed over field paths of the validated spec:
+// kind "nil" (A == nil), "bool" (the boolean at A), "less" (A < B), "streq" (A == Str), each known
+// with truth value Pol; kind "callnil" says that the error result of Call is nil.
+type c16VFact struct {
+	Kind string
+	A, B []string
+	Str  string
+	Pol  bool
+	Call *ssa.Call
+}
+
+func (f c16VFact) String() string {
+	neg := ""
+	if !f.Pol {
+		neg = "¬"
+	}
+	switch f.Kind {
+	case "nil":
+		return neg + "(" + strings.Join(f.A, ".") + "==nil)"
+	case "bool":
+		return neg + strings.Join(f.A, ".")
+	case "less":
+		return neg + "(" + strings.Join(f.A, ".") + "<" + strings.Join(f.B, ".") + ")"
+	case "streq":
+		return fmt.Sprintf("%s(%s==%q)", neg, strings.Join(f.A, "."), f.Str)
+	}
+	return neg + "call"
+}
+
+// c16Outcome is one way a validation function ends: what it returns and the facts of the path,
+// with the facts of the validators it called (directly, or one after the other from a table) merged in.
+type c16Outcome struct {
+	Ret   string // "nil", "sentinel:<name>", "other"
+	Facts []c16VFact
+}
+
+func (o c16Outcome) String() string {
+	var fs []string
+	for _, f := range o.Facts {
+		if f.Kind != "callnil" {
+			fs = append(fs, f.String())
+		}
+	}
+	sort.Strings(fs)
+	return strings.Join(fs, " ∧ ")
+}
+
+type c16Validation struct {
+	r    *Run
+	memo map[string][]c16Outcome
+	und  []string
+}
+
+func c16ErrCall(v ssa.Value) *ssa.Call {
+	v = unwrap(v)
+	if ex, ok := v.(*ssa.Extract); ok {
+		v = ex.Tuple
+	}
+	c, ok := v.(*ssa.Call)
+	if !ok || dBuiltin(&c.Call) != "" {
+		return nil
+	}
+	return c
+}
+
+// vfacts translates the facts of a path (plus extra facts) into spec-relative facts.
+func (cv *c16Validation) vfacts(p *Path, facts []Fact, prefixOf func(ssa.Value) ([]string, bool)) []c16VFact {
+	var out []c16VFact
+	pathOf := func(v ssa.Value) ([]string, bool) {
+		root, path := accessPath(v)
+		pre, ok := prefixOf(root)
+		if !ok {
+			return nil, false
+		}
+		return append(append([]string{}, pre...), path...), true
+	}
+	var work []Fact
+	work = append(work, facts...)
+	for i := 0; i < len(work) && i < 200; i++ {
+		f := work[i]
+		if f.V == nil {
+			continue
+		}
+		if _, isPhi := f.V.(*ssa.Phi); isPhi && p != nil {
+			if v := p.Resolve(f.V); v != f.V {
+				if _, isC := constBool(v); !isC {
+					work = append(work, p.k.normCond(v, f.Pol)...)
+				}
+			}
+			continue
+		}
+		switch x := f.V.(type) {
+		case *ssa.BinOp:
+			switch x.Op {
+			case token.EQL, token.NEQ:
+				a, c := x.X, x.Y
+				if _, isC := a.(*ssa.Const); isC {
+					a, c = c, a
+				}
+				if isNilConst(c) {
+					if call := c16ErrCall(a); call != nil && c17IsErrType(a.Type()) {
+						out = append(out, c16VFact{Kind: "callnil", Pol: f.Pol, Call: call})
+					} else if pa, ok := pathOf(a); ok {
+						out = append(out, c16VFact{Kind: "nil", A: pa, Pol: f.Pol})
+					}
+				} else if sv, isS := constString(c); isS {
+					if pa, ok := pathOf(a); ok {
+						out = append(out, c16VFact{Kind: "streq", A: pa, Str: sv, Pol: f.Pol})
+					}
+				}
+			case token.LSS, token.GTR, token.LEQ, token.GEQ:
+				lo, hi := x.X, x.Y
+				if x.Op == token.GTR || x.Op == token.LEQ {
+					lo, hi = x.Y, x.X
+				}
+				pl, ok1 := pathOf(lo)
+				ph, ok2 := pathOf(hi)
+				if ok1 && ok2 {
+					out = append(out, c16VFact{Kind: "less", A: pl, B: ph, Pol: f.Pol})
+				}
+			}
+		case *ssa.UnOp:
+			if x.Op == token.MUL {
+				if pa, ok := pathOf(x); ok {
+					out = append(out, c16VFact{Kind: "bool", A: pa, Pol: f.Pol})
+				}
+			}
+		}
+	}
+	return out
+}
+
+// outcomes enumerates the ways fn (a function whose result #errIdx is an error) can end.
+func (cv *c16Validation) outcomes(fn *ssa.Function, errIdx int, prefix map[int][]string, depth int) []c16Outcome {
+	key := fmt.Sprintf("%s|%d|%v", funcName(fn), errIdx, prefix)
+	if o, ok := cv.memo[key]; ok {
+		return o
+	}
+	cv.memo[key] = nil
+	if len(fn.Blocks) == 0 || depth > 4 {
+		cv.und = append(cv.und, "cannot analyse "+funcName(fn))
+		return nil
+	}
+	prefixOf := func(root ssa.Value) ([]string, bool) {
+		if p, ok := root.(*ssa.Parameter); ok && p.Parent() == fn {
+			pre, ok := prefix[paramIndex(p)]
+			return pre, ok
+		}
+		return nil, false
+	}
+	paths, k, ok := funcPaths(fn, 5000)
+	cv.r.paths += len(paths)
+	if !ok {
+		cv.und = append(cv.und, "path cap exceeded in "+shortFunc(fn))
+		return nil
+	}
+	calleePrefix := func(c *ssa.Call, callee *ssa.Function) map[int][]string {
+		m := map[int][]string{}
+		for i, a := range c.Call.Args {
+			if i >= len(callee.Params) {
+				break
+			}
+			root, path := accessPath(a)
+			if pre, ok := prefixOf(root); ok {
+				m[i] = append(append([]string{}, pre...), path...)
+			}
+		}
+		return m
+	}
+	calleeErrIdx := func(callee *ssa.Function) int {
+		res := callee.Signature.Results()
+		for i := 0; i < res.Len(); i++ {
+			if c17IsErrType(res.At(i).Type()) {
+				return i
+			}
+		}
+		return -1
+	}
+	var out []c16Outcome
+	for _, p := range paths {
+		ret := returnOf(p.Blocks[len(p.Blocks)-1])
+		var facts []Fact
+		for _, f := range p.Facts {
+			facts = append(facts, f)
+		}
+		vf := cv.vfacts(p, facts, prefixOf)
+		// loops left on this path: what every completed iteration established
+		forAll := map[*ssa.Call]bool{}
+		for i, hb := range p.Blocks {
+			if i+1 >= len(p.Blocks) || len(hb.Succs) != 2 || p.Blocks[i+1] != hb.Succs[1] || !dReaches(hb, hb) {
+				continue
+			}
+			isRange := false
+			for _, in := range hb.Instrs {
+				if phi, ok := in.(*ssa.Phi); ok && phi.Comment == "rangeindex" {
+					isRange = true
+				}
+			}
+			if !isRange {
+				continue
+			}
+			body, okb := enumPaths(fn, k, hb, func(b *ssa.BasicBlock) bool {
+				if b == hb {
+					return false
+				}
+				for _, s := range b.Succs {
+					if s == hb {
+						return true
+					}
+				}
+				return false
+			}, nil, 200)
+			var iter []*Path
+			for _, bp := range body {
+				// the path must be able to take the back edge
+				last := bp.Blocks[len(bp.Blocks)-1]
+				if dInLoop(hb, last) {
+					iter = append(iter, bp)
+				}
+			}
+			if !okb || len(iter) != 1 {
+				continue
+			}
+			bp := iter[0]
+			last := bp.Blocks[len(bp.Blocks)-1]
+			var bf []Fact
+			for _, f := range bp.Facts {
+				bf = append(bf, f)
+			}
+			bf = append(bf, k.edgeFacts(last, hb)...)
+			for _, f := range cv.vfacts(bp, bf, prefixOf) {
+				if f.Kind == "callnil" && f.Pol {
+					forAll[f.Call] = true
+					vf = append(vf, f)
+				}
+			}
+		}
+		// classify the returned value
+		res := unwrap(p.Resolve(ret.Results[errIdx]))
+		base := c16Outcome{}
+		var retCall *ssa.Call
+		switch x := res.(type) {
+		case *ssa.Const:
+			if x.IsNil() {
+				base.Ret = "nil"
+			} else {
+				base.Ret = "other"
+			}
+		case *ssa.UnOp:
+			if g, ok := x.X.(*ssa.Global); ok && x.Op == token.MUL {
+				base.Ret = "sentinel:" + g.Name()
+			} else {
+				base.Ret = "other"
+			}
+		default:
+			if c := c16ErrCall(res); c != nil {
+				retCall = c
+			} else {
+				base.Ret = "other"
+			}
+		}
+		// expand the facts about validators called on this path
+		alts := []c16Outcome{base}
+		mergeAlts := func(options []c16Outcome, setRet bool) {
+			var next []c16Outcome
+			for _, a := range alts {
+				for _, o := range options {
+					n := c16Outcome{Ret: a.Ret, Facts: append(append([]c16VFact{}, a.Facts...), o.Facts...)}
+					if setRet {
+						n.Ret = o.Ret
+					}
+					next = append(next, n)
+					if len(next) > 4000 {
+						cv.und = append(cv.und, "too many combinations of validator outcomes in "+shortFunc(fn))
+						alts = next
+						return
+					}
+				}
+			}
+			alts = next
+		}
+		var own []c16VFact
+		for _, f := range vf {
+			if f.Kind != "callnil" {
+				own = append(own, f)
+				continue
+			}
+			callees, okc := dDynCallees(cv.r.Prog, f.Call)
+			if !okc {
+				continue
+			}
+			_, isStatic := f.Call.Call.Value.(*ssa.Function)
+			if f.Pol {
+				// the call returned nil: one validator for a static call, every validator of the table for a completed loop
+				if !isStatic && !forAll[f.Call] {
+					continue
+				}
+				for _, callee := range callees {
+					ei := calleeErrIdx(callee)
+					if ei < 0 || !cv.r.Prog.IsRepoFunc(callee) {
+						continue
+					}
+					var nils []c16Outcome
+					for _, o := range cv.outcomes(callee, ei, calleePrefix(f.Call, callee), depth+1) {
+						if o.Ret == "nil" {
+							nils = append(nils, o)
+						}
+					}
+					if len(nils) > 0 {
+						mergeAlts(nils, false)
+					}
+				}
+			}
+		}
+		if retCall != nil {
+			callees, okc := dDynCallees(cv.r.Prog, retCall)
+			var opts []c16Outcome
+			if okc {
+				knownNonNil := false
+				for _, f := range vf {
+					if f.Kind == "callnil" && f.Call == retCall && !f.Pol {
+						knownNonNil = true
+					}
+				}
+				for _, callee := range callees {
+					ei := calleeErrIdx(callee)
+					if ei < 0 || !cv.r.Prog.IsRepoFunc(callee) {
+						opts = append(opts, c16Outcome{Ret: "other"})
+						continue
+					}
+					for _, o := range cv.outcomes(callee, ei, calleePrefix(retCall, callee), depth+1) {
+						if o.Ret == "nil" && knownNonNil {
+							continue
+						}
+						opts = append(opts, o)
+					}
+				}
+			}
+			if len(opts) == 0 {
+				opts = []c16Outcome{{Ret: "other"}}
+			}
+			mergeAlts(opts, true)
+		}
+		for _, a := range alts {
+			a.Facts = append(a.Facts, own...)
+			out = append(out, a)
+		}
+	}
+	cv.memo[key] = out
+	return out
+}
+
+func c16Suffix(p []string, suffix ...string) bool {
+	return len(p) >= len(suffix) && c16PathEq(p[len(p)-len(suffix):], suffix)
+}
+
 func c16ValidationTable(r *Run) {
 	fn := r.Prog.Func(pkgAPI, "ValidateExtendedDaemonSetSpec")
 	if fn == nil {
 		r.Fatal("anchor %s.ValidateExtendedDaemonSetSpec not found", pkgAPI)
 		return
 	}
-	paths, _, ok := funcPaths(fn, 5000)
-	r.paths += len(paths)
 	sf := shortFunc(fn)
-	if !ok || len(fn.Params) != 1 {
-		r.Undecided("C16.R6", "validation table", r.Prog.Pos(fn.Pos()), sf, "path cap exceeded or unexpected signature")
+	if len(fn.Params) != 1 || fn.Signature.Results().Len() != 1 {
+		r.Undecided("C16.R6", "validation table", r.Prog.Pos(fn.Pos()), sf, "unexpected signature")
 		return
 	}
+	cv := &c16Validation{r: r, memo: map[string][]c16Outcome{}}
+	outs := cv.outcomes(fn, 0, map[int][]string{0: {}}, 0)
+	for _, u := range cv.und {
+		r.Undecided("C16.R6", "validation table", r.Prog.Pos(fn.Pos()), sf, u)
+	}
 	manual, _ := r.Prog.constStr(pkgAPI, "ExtendedDaemonSetSpecStrategyCanaryValidationModeManual")
-	load := func(suffix ...string) func(ssa.Value) bool { return loadOfPath(nil, suffix...) }
+	// an atom of a rejection condition: truth(f) says whether fact f settles the atom, and how
 	type atom struct {
 		name  string
-		pol   bool // polarity the condition needs
-		m     func(v ssa.Value, key string) bool
-		guard bool                               // a presence test (`!= nil`): can refute the condition, but is not part of the documented condition itself
-		alt   func(v ssa.Value, key string) bool // a stronger fact (polarity true) that also establishes the atom
+		guard bool // a presence test: can refute the condition, but is not part of the documented condition itself
+		truth func(f c16VFact) (val, ok bool)
 	}
-	boolLoad := func(suffix ...string) func(ssa.Value, string) bool {
-		return func(v ssa.Value, _ string) bool {
-			if _, isB := v.(*ssa.BinOp); isB {
-				return false
+	notNil := func(name string, guard bool, suffix ...string) atom {
+		return atom{name, guard, func(f c16VFact) (bool, bool) {
+			if f.Kind == "nil" && c16Suffix(f.A, suffix...) {
+				return !f.Pol, true
 			}
-			return load(suffix...)(v)
+			return false, false
+		}}
+	}
+	isTrue := func(name string, suffix ...string) atom {
+		return atom{name, false, func(f c16VFact) (bool, bool) {
+			if f.Kind == "bool" && c16Suffix(f.A, suffix...) {
+				return f.Pol, true
+			}
+			return false, false
+		}}
+	}
+	// strict: lo < hi ; otherwise lo <= hi
+	cmp := func(name string, strict bool, lo, hi []string) atom {
+		return atom{name, false, func(f c16VFact) (bool, bool) {
+			if f.Kind != "less" {
+				return false, false
+			}
+			same := c16Suffix(f.A, lo...) && c16Suffix(f.B, hi...)
+			rev := c16Suffix(f.A, hi...) && c16Suffix(f.B, lo...)
+			switch {
+			case strict && same: // lo<hi known
+				return f.Pol, true
+			case strict && rev && f.Pol: // hi<lo ⇒ ¬(lo<hi)
+				return false, true
+			case !strict && rev: // lo<=hi ⇔ ¬(hi<lo)
+				return !f.Pol, true
+			case !strict && same && f.Pol: // lo<hi ⇒ lo<=hi
+				return true, true
+			}
+			return false, false
+		}}
+	}
+	modeManual := atom{"mode==manual", false, func(f c16VFact) (bool, bool) {
+		if f.Kind != "streq" || !c16Suffix(f.A, "Canary", "ValidationMode") {
+			return false, false
 		}
-	}
-	nilCmp := func(suffix ...string) func(ssa.Value, string) bool {
-		return func(v ssa.Value, _ string) bool { return isNilCompareOf(v, load(suffix...)) }
-	}
-	less := func(a, b []string) func(ssa.Value, string) bool {
-		// fact "a < b" (normalised); v is the original comparison
-		return func(v ssa.Value, key string) bool {
-			bo, ok := v.(*ssa.BinOp)
-			if !ok {
-				return false
-			}
-			var lo, hi ssa.Value
-			switch bo.Op {
-			case token.LSS, token.GEQ:
-				lo, hi = bo.X, bo.Y
-			case token.GTR, token.LEQ:
-				lo, hi = bo.Y, bo.X
-			default:
-				return false
-			}
-			return load(a...)(lo) && load(b...)(hi)
+		if f.Str == manual {
+			return f.Pol, true
 		}
-	}
-	modeIs := func(v ssa.Value, _ string) bool {
-		return isEqCompare(v, load("Canary", "ValidationMode"), isConstStringVal(manual))
-	}
-	canarySet := atom{name: "canary!=nil", m: nilCmp("Strategy", "Canary"), guard: true}
-	afEnabled := atom{name: "autoFail.enabled", pol: true, m: boolLoad("AutoFail", "Enabled")}
-	apEnabled := atom{name: "autoPause.enabled", pol: true, m: boolLoad("AutoPause", "Enabled")}
+		if f.Pol {
+			return false, true // equal to another constant
+		}
+		return false, false
+	}}
+	canarySet := notNil("canary!=nil", true, "Strategy", "Canary")
+	afEnabled := isTrue("autoFail.enabled", "AutoFail", "Enabled")
+	apEnabled := isTrue("autoPause.enabled", "AutoPause", "Enabled")
 	rows := []struct {
 		name, sentinel string
 		atoms          []atom
 	}{
 		{"autoFail.maxRestarts below autoPause.maxRestarts", "ErrInvalidAutoFailRestarts", []atom{canarySet, afEnabled, apEnabled,
-			{name: "autoFail.maxRestarts<autoPause.maxRestarts", pol: true, m: less([]string{"AutoFail", "MaxRestarts"}, []string{"AutoPause", "MaxRestarts"})}}},
+			cmp("autoFail.maxRestarts<autoPause.maxRestarts", true, []string{"AutoFail", "MaxRestarts"}, []string{"AutoPause", "MaxRestarts"})}},
 		{"canaryTimeout not above duration", "ErrInvalidCanaryTimeout", []atom{canarySet, afEnabled,
-			{name: "canaryTimeout!=nil", m: nilCmp("AutoFail", "CanaryTimeout"), guard: true}, {name: "duration!=nil", m: nilCmp("Canary", "Duration"), guard: true},
-			// timeout <= duration  ==  !(duration < timeout)
-			{name: "!(duration<canaryTimeout)", m: less([]string{"Canary", "Duration", "Duration"}, []string{"AutoFail", "CanaryTimeout", "Duration"}),
-				alt: less([]string{"AutoFail", "CanaryTimeout", "Duration"}, []string{"Canary", "Duration", "Duration"})}}},
-		{"duration in manual mode", "ErrDurationWithManualValidationMode", []atom{canarySet, {name: "mode==manual", pol: true, m: modeIs}, {name: "duration!=nil", m: nilCmp("Canary", "Duration")}}},
-		{"noRestartsDuration in manual mode", "ErrNoRestartsDurationWithManualValidationMode", []atom{canarySet, {name: "mode==manual", pol: true, m: modeIs}, {name: "noRestartsDuration!=nil", m: nilCmp("Canary", "NoRestartsDuration")}}},
+			notNil("canaryTimeout!=nil", true, "AutoFail", "CanaryTimeout"), notNil("duration!=nil", true, "Canary", "Duration"),
+			cmp("canaryTimeout<=duration", false, []string{"AutoFail", "CanaryTimeout", "Duration"}, []string{"Canary", "Duration", "Duration"})}},
+		{"duration in manual mode", "ErrDurationWithManualValidationMode", []atom{canarySet, modeManual, notNil("duration!=nil", false, "Canary", "Duration")}},
+		{"noRestartsDuration in manual mode", "ErrNoRestartsDurationWithManualValidationMode", []atom{canarySet, modeManual, notNil("noRestartsDuration!=nil", false, "Canary", "NoRestartsDuration")}},
+	}
+	settles := func(o c16Outcome, a atom, want bool) bool {
+		for _, f := range o.Facts {
+			if v, ok := a.truth(f); ok && v == want {
+				return true
+			}
+		}
+		return false
 	}
 	for _, row := range rows {
-		// (a) every nil-returning path refutes the condition
+		// (a) every way of returning nil refutes the condition
 		bad := ""
 		nNil := 0
-		for _, p := range paths {
-			ret := returnOf(p.Blocks[len(p.Blocks)-1])
-			res := p.Resolve(ret.Results[0])
-			if !isNilConst(unwrap(res)) {
+		for _, o := range outs {
+			if o.Ret != "nil" {
 				continue
 			}
 			nNil++
 			refuted := false
 			for _, a := range row.atoms {
-				if p.Has(!a.pol, a.m) {
+				if settles(o, a, false) {
 					refuted = true
 				}
 			}
 			if !refuted {
-				bad = "validation accepts on the path [" + shortFacts(p) + "], which does not exclude: " + row.name
+				bad = "validation accepts when [" + o.String() + "], which does not exclude: " + row.name
 			}
 		}
 		r.Check("C16.R6", "accepts only without: "+row.name, r.Prog.Pos(fn.Pos()), sf,
-			"every path returning nil carries a fact contradicting the rejection condition", bad == "" && nNil > 0, bad)
+			"every path returning nil (through the validators it runs) carries a fact contradicting the rejection condition", bad == "" && nNil > 0, bad)
 		// (b) the sentinel is returned under its condition
 		found, wrong := false, ""
-		for _, p := range paths {
-			ret := returnOf(p.Blocks[len(p.Blocks)-1])
-			res := unwrap(p.Resolve(ret.Results[0]))
-			u, ok := res.(*ssa.UnOp)
-			if !ok {
-				continue
-			}
-			g, ok := u.X.(*ssa.Global)
-			if !ok || g.Name() != row.sentinel {
+		for _, o := range outs {
+			if o.Ret != "sentinel:"+row.sentinel {
 				continue
 			}
 			all := true
 			for _, a := range row.atoms {
-				if !a.guard && !p.Has(a.pol, a.m) && !(a.alt != nil && p.Has(true, a.alt)) {
+				if !a.guard && !settles(o, a, true) {
 					all = false
-					wrong = "returned on the path [" + shortFacts(p) + "] without " + a.name
+					wrong = "returned when [" + o.String() + "] without " + a.name
 				}
 			}
 			if all {
@@ -258,7 +628,7 @@ func c16ReconcileReach(r *Run) map[*ssa.Function]bool {
 		r.Fatal("anchor Reconcile of %s / %s not found", pkgEDS, pkgERS)
 		return nil
 	}
-	return r.Prog.reachableFuncs(eds, ers)
+	return dReachable(r.Prog, eds, ers)
 }
 
 func c16IsInt(t types.Type) bool {
@@ -372,33 +742,126 @@ func c16LenOfFilledMap(r *Run, fn *ssa.Function, ff *FuncFacts, div *ssa.BinOp) 
 	if !ok || dBuiltin(&call.Call) != "len" {
 		return false, ""
 	}
-	var mm *ssa.MakeMap
-	for _, c := range dChains(call.Call.Args[0], true) {
-		m, ok := c.Root.(*ssa.MakeMap)
-		if !ok || c.Loads != 0 {
-			return false, "divisor is len of something that is not a function-local map"
+	chains := dChains(call.Call.Args[0], true)
+	if len(chains) != 1 || chains[0].Loads != 0 || len(chains[0].Path) != 0 {
+		return false, "divisor is len of something that is not a function-local map"
+	}
+	switch root := chains[0].Root.(type) {
+	case *ssa.MakeMap:
+		return c16FilledMapAt(r, fn, ff, div.Block(), root)
+	case *ssa.Parameter:
+		// a helper working on its caller's map: the premises are checked at every call site
+		if _, isMap := root.Type().Underlying().(*types.Map); !isMap || !c16MapParamBenign(r, fn, paramIndex(root), 0) {
+			return false, "divisor is len of a map parameter that the function may shrink or leak"
 		}
-		mm = m
+		sites := dCallSitesIn(r.Prog, fn, c16ReconcileReach(r))
+		if len(sites) == 0 {
+			return false, "no call site of " + shortFunc(fn)
+		}
+		why := ""
+		for _, cs := range sites {
+			ac := dChains(cs.Common().Args[paramIndex(root)], true)
+			if len(ac) != 1 || ac[0].Loads != 0 || len(ac[0].Path) != 0 {
+				return false, "the map handed to " + shortFunc(fn) + " is not a function-local map of the caller"
+			}
+			mm, isMM := ac[0].Root.(*ssa.MakeMap)
+			if !isMM {
+				return false, "the map handed to " + shortFunc(fn) + " is not a function-local map of the caller"
+			}
+			caller := cs.Parent()
+			ok, w := c16FilledMapAt(r, caller, r.Prog.factsOf(caller), cs.Block(), mm)
+			if !ok {
+				return false, w
+			}
+			why = w + " (map handed to " + shortFunc(fn) + ")"
+		}
+		return true, why
 	}
-	if mm == nil {
-		return false, ""
+	return false, "divisor is len of something that is not a function-local map"
+}
+
+// c16MapParamBenign: fn uses its map parameter #k only for lookups, updates, len, and as argument of
+// repository functions that do the same (it neither deletes from it nor lets it escape).
+func c16MapParamBenign(r *Run, fn *ssa.Function, k, depth int) bool {
+	if fn == nil || len(fn.Blocks) == 0 || k >= len(fn.Params) || depth > 3 {
+		return false
 	}
-	// the map must not escape or shrink: only lookups, updates and len
-	for _, rf := range refs(mm) {
+	return c16MapUsesBenign(r, fn.Params[k], depth)
+}
+
+func c16MapUsesBenign(r *Run, m ssa.Value, depth int) bool {
+	for _, rf := range refs(m) {
 		switch x := rf.(type) {
 		case *ssa.MapUpdate, *ssa.Lookup, *ssa.DebugRef:
+		case *ssa.ChangeType:
+			if !c16MapUsesBenign(r, x, depth) {
+				return false
+			}
 		case *ssa.Call:
-			if dBuiltin(&x.Call) != "len" {
-				return false, "the map is handed to " + calleeName(&x.Call)
+			if dBuiltin(&x.Call) == "len" {
+				continue
+			}
+			callee := staticCallee(&x.Call)
+			if callee == nil || !r.Prog.IsRepoFunc(callee) {
+				return false
+			}
+			for j, a := range x.Call.Args {
+				if a == m && !c16MapParamBenign(r, callee, j, depth+1) {
+					return false
+				}
 			}
 		default:
-			return false, "the map is used by something other than lookup, update and len"
+			return false
 		}
 	}
-	// loop over S containing the division
+	return true
+}
+
+// c16EnsuresKey: after fn returns, key parameter #kj is present in map parameter #km on every path
+// (the path found it by lookup, or inserted it).
+func c16EnsuresKey(r *Run, fn *ssa.Function, km, kj int) bool {
+	if fn == nil || len(fn.Blocks) == 0 || km >= len(fn.Params) || kj >= len(fn.Params) {
+		return false
+	}
+	pm, pk := fn.Params[km], fn.Params[kj]
+	paths, _, ok := funcPaths(fn, 500)
+	r.paths += len(paths)
+	if !ok || len(paths) == 0 {
+		return false
+	}
+	for _, p := range paths {
+		found := p.Has(true, func(v ssa.Value, _ string) bool {
+			ex, ok := v.(*ssa.Extract)
+			if !ok || ex.Index != 1 {
+				return false
+			}
+			lk, ok := ex.Tuple.(*ssa.Lookup)
+			return ok && lk.CommaOk && unwrap(lk.X) == ssa.Value(pm) && unwrap(lk.Index) == ssa.Value(pk)
+		})
+		for _, b := range p.Blocks {
+			for _, in := range b.Instrs {
+				if mu, ok := in.(*ssa.MapUpdate); ok && unwrap(mu.Map) == ssa.Value(pm) && unwrap(mu.Key) == ssa.Value(pk) {
+					found = true
+				}
+			}
+		}
+		if !found {
+			return false
+		}
+	}
+	return true
+}
+
+// c16FilledMapAt: the function-local map mm is non-empty whenever control is at block use of fn.
+func c16FilledMapAt(r *Run, fn *ssa.Function, ff *FuncFacts, use *ssa.BasicBlock, mm *ssa.MakeMap) (bool, string) {
+	// the map must not escape or shrink
+	if !c16MapUsesBenign(r, mm, 0) {
+		return false, "the map is used by something other than lookup, update, len and helpers doing only that"
+	}
+	// loop over S containing the use
 	sliceLoad := map[*ssa.BasicBlock]ssa.Value{}
 	loopSlice := func(b *ssa.BasicBlock) (string, *ssa.BasicBlock) {
-		// innermost rangeindex loop whose body dominates b: header has phi #rangeindex and the bound len(S)
+		// innermost rangeindex loop whose body contains b: header has phi #rangeindex and the bound len(S)
 		for h := b; h != nil; h = h.Idom() {
 			for _, in := range h.Instrs {
 				phi, ok := in.(*ssa.Phi)
@@ -426,50 +889,59 @@ func c16LenOfFilledMap(r *Run, fn *ssa.Function, ff *FuncFacts, div *ssa.BinOp) 
 		}
 		return "", nil
 	}
-	sKey, h2 := loopSlice(div.Block())
+	sKey, h2 := loopSlice(use)
 	if h2 == nil {
 		return false, "the division is not inside a range loop over a slice"
 	}
-	condKeys := func(b *ssa.BasicBlock) map[string]bool {
-		out := map[string]bool{}
-		for _, f := range ff.At(b) {
-			if strings.Contains(f.Key, "builtin:len(") {
-				out[fkey(f)] = true
+	useConds := map[string]bool{}
+	for _, f := range ff.At(use) {
+		if strings.Contains(f.Key, "builtin:len(") {
+			useConds[fkey(f)] = true
+		}
+	}
+	isM := func(v ssa.Value) bool {
+		for _, c := range dChains(v, true) {
+			if c.Root == ssa.Value(mm) {
+				return true
 			}
 		}
-		return out
+		return false
 	}
-	divConds := condKeys(div.Block())
 	for _, b := range fn.Blocks {
 		for _, in := range b.Instrs {
-			mu, ok := in.(*ssa.MapUpdate)
-			if !ok {
-				continue
-			}
-			isM := false
-			for _, c := range dChains(mu.Map, true) {
-				if c.Root == ssa.Value(mm) {
-					isM = true
+			// an insertion event: a map update guarded only by "key not found", or a helper that leaves its key in the map
+			var event ssa.Instruction
+			switch x := in.(type) {
+			case *ssa.MapUpdate:
+				if isM(x.Map) {
+					event = x
+				}
+			case *ssa.Call:
+				if callee := staticCallee(&x.Call); callee != nil && r.Prog.IsRepoFunc(callee) {
+					for km, a := range x.Call.Args {
+						if !isM(a) {
+							continue
+						}
+						for kj := range x.Call.Args {
+							if kj != km && c16EnsuresKey(r, callee, km, kj) {
+								event = x
+							}
+						}
+					}
 				}
 			}
-			if !isM {
+			if event == nil {
 				continue
 			}
 			s1, h1 := loopSlice(b)
-			if c16Debug() {
-				fmt.Printf("DBG mapupdate b%d h1=%v s1=%q sKey=%q h2=b%d\n", b.Index, h1, s1, sKey, h2.Index)
-			}
-			if h1 == nil || h1 == h2 || s1 != sKey {
-				continue
-			}
-			if dReaches(h2, h1) {
+			if h1 == nil || h1 == h2 || s1 != sKey || dReaches(h2, h1) {
 				continue
 			}
 			// same enabling condition C, tested by a block B1 that dominates the second loop; on B1's
 			// C-edge every path to the second loop runs through the first loop
 			shared := false
 			for _, f := range ff.At(h1) {
-				if !strings.Contains(f.Key, "builtin:len(") || !divConds[fkey(f)] {
+				if !strings.Contains(f.Key, "builtin:len(") || !useConds[fkey(f)] {
 					continue
 				}
 				for b1 := h1.Idom(); b1 != nil; b1 = b1.Idom() {
@@ -509,35 +981,33 @@ func c16LenOfFilledMap(r *Run, fn *ssa.Function, ff *FuncFacts, div *ssa.BinOp) 
 					}
 				}
 			}
-			if c16Debug() {
-				fmt.Printf("DBG shared=%v divConds=%v h1facts=%v\n", shared, divConds, ff.At(h1))
-			}
 			if !shared {
 				continue
 			}
-			// every iteration of the first loop leaves the looked-up key in the map: the update is
-			// guarded only by "key not found"
+			// every first iteration of the first loop leaves a key in the map
 			guardOK := false
-			for _, f := range ff.At(b) {
-				if ex, ok := f.V.(*ssa.Extract); ok && ex.Index == 1 && !f.Pol {
-					// the lookup is the first thing an iteration does, and the insertion is guarded by it alone
-					if lk, ok := ex.Tuple.(*ssa.Lookup); ok && lk.CommaOk && ff.K.key(lk.Index) == ff.K.key(mu.Key) && lk.Block() == h1.Succs[0] &&
-						len(b.Preds) == 1 && b.Preds[0] == lk.Block() {
-						guardOK = true
+			switch x := event.(type) {
+			case *ssa.MapUpdate:
+				for _, f := range ff.At(b) {
+					if ex, ok := f.V.(*ssa.Extract); ok && ex.Index == 1 && !f.Pol {
+						// the lookup is the first thing an iteration does, and the insertion is guarded by it alone
+						if lk, ok := ex.Tuple.(*ssa.Lookup); ok && lk.CommaOk && ff.K.key(lk.Index) == ff.K.key(x.Key) && lk.Block() == h1.Succs[0] &&
+							len(b.Preds) == 1 && b.Preds[0] == lk.Block() {
+							guardOK = true
+						}
 					}
 				}
-			}
-			if c16Debug() {
-				fmt.Printf("DBG guardOK=%v stored=%v/%v facts=%v\n", guardOK, c16StoredIn(fn, sliceLoad[h1]), c16StoredIn(fn, sliceLoad[h2]), ff.At(b))
+			case *ssa.Call:
+				// the helper is called unconditionally at the start of every iteration
+				guardOK = b == h1.Succs[0]
 			}
 			if c16StoredAfter(fn, sliceLoad[h1], h1) || c16StoredAfter(fn, sliceLoad[h2], h1) {
 				guardOK = false
 			}
-			// the body block of loop 1 must reach the lookup unconditionally: the lookup's block is the loop body entry
 			if !guardOK {
 				continue
 			}
-			return true, fmt.Sprintf("len of the local map filled at %s for every element of %s under the same condition", r.Prog.Pos(mu.Pos()), c16StableKey(sKey))
+			return true, fmt.Sprintf("len of the local map filled at %s for every element of %s under the same condition", r.Prog.Pos(instrPos(event)), c16StableKey(sKey))
 		}
 	}
 	return false, "no earlier loop over the same slice fills the map under the same condition"
@@ -642,7 +1112,7 @@ func c16DefiniteInit(r *Run) {
 		r.Fatal("anchor (%s.Reconciler).Reconcile not found", pkgERS)
 		return
 	}
-	reach := r.Prog.reachableFuncs(ers)
+	reach := dReachable(r.Prog, ers)
 	good := map[*ssa.Function]bool{}
 	var producers []*ssa.Function
 	for _, fn := range sortedFuncs(reach) {
@@ -999,7 +1469,7 @@ func c16Defaulters(r *Run) (*ssa.Function, map[*ssa.Function]bool) {
 		r.Fatal("anchor %s.DefaultExtendedDaemonSetSpec not found", pkgAPI)
 		return nil, nil
 	}
-	return fn, r.Prog.reachableFuncs(fn)
+	return fn, dReachable(r.Prog, fn)
 }
 
 // c16IdentityOrDefault: fn returns its parameter #i whenever it is non-nil (every return is the
@@ -2148,13 +2618,13 @@ func c16Wiring(r *Run, rec, def *ssa.Function) {
 	if eds == nil {
 		return
 	}
-	ff := computeFacts(eds)
 	found := false
-	for _, c := range callsIn(eds) {
-		e := clientEffect(eds, c)
-		if e == nil || e.Verb != "Update" || e.Status {
+	for _, e := range effectsOf(dReachable(r.Prog, eds)) {
+		c := e.Call
+		if e.Verb != "Update" || e.Status {
 			continue
 		}
+		ff := r.Prog.factsOf(e.Fn)
 		notDefaulted := ff.Holds(c.Block(), false, func(v ssa.Value, _ string) bool {
 			cc, ok := v.(*ssa.Call)
 			return ok && staticCallee(&cc.Call) == rec
@@ -2167,7 +2637,7 @@ func c16Wiring(r *Run, rec, def *ssa.Function) {
 			cc, ok := v.(*ssa.Call)
 			return ok && staticCallee(&cc.Call) == outer
 		})
-		r.Check("C16.R1", "defaulted copy is written", r.Prog.Pos(c.Pos()), shortFunc(eds), "when the recogniser answers false the reconciler writes the result of DefaultExtendedDaemonSet", fromDefaulter, "object written: "+e.Obj.String())
+		r.Check("C16.R1", "defaulted copy is written", r.Prog.Pos(c.Pos()), shortFunc(e.Fn), "when the recogniser answers false the reconciler writes the result of DefaultExtendedDaemonSet", fromDefaulter, "object written: "+e.Obj.String())
 	}
 	if !found {
 		r.Check("C16.R1", "defaulted copy is written", r.Prog.Pos(eds.Pos()), shortFunc(eds), "an Update under !IsDefaultedExtendedDaemonSet exists", false, "none found")
@@ -2478,7 +2948,18 @@ func (rv *c16Resolver) resolve(fn *ssa.Function, site ssa.Instruction, root ssa.
 	switch x := root.(type) {
 	case *ssa.Parameter:
 		idx := paramIndex(x)
-		sites := callSitesOf(fn, rv.sites)
+		sites := dCallSitesIn(rv.r.Prog, fn, rv.sites)
+		// the parameter is, at every call site, a DeepCopy of the object passed as another parameter: nil-ness
+		// of field paths established on that sibling inside this function holds for the copy as well
+		if sib := rv.copyOfSibling(fn, x, sites, path); sib != nil && !c16PathStoredIn(fn, root, path) {
+			sibLits := rv.litsAbout(fn, b, sib)
+			if c16HasLit(sibLits, path, "nil", "", false) && !c16PathStoredIn(fn, sib, path) {
+				return true, "nil guard on " + strings.Join(path, ".") + " of " + sib.Name() + ", of which " + x.Name() + " is a copy, in " + shortFunc(fn) + trail
+			}
+			if rv.nonNilAt(fn, site, sib, path) {
+				return true, "guarded or assigned non-nil on " + sib.Name() + ", of which " + x.Name() + " is a copy, in " + shortFunc(fn) + trail
+			}
+		}
 		if len(sites) == 0 {
 			return false, "no caller of " + shortFunc(fn) + " (within the reconcilers) establishes it" + trail
 		}
@@ -2536,6 +3017,35 @@ func (rv *c16Resolver) resolve(fn *ssa.Function, site ssa.Instruction, root ssa.
 		callee := staticCallee(&call.Call)
 		if callee == nil {
 			break
+		}
+		// a repository helper handing back an object: the facts under which it returns it hold for the result
+		if rv.r.Prog.IsRepoFunc(callee) && len(callee.Blocks) > 0 && depth < 8 {
+			okAll, n, why := true, 0, ""
+			for _, rt := range dNormalReturns(callee) {
+				if idx >= len(rt.Results) {
+					okAll = false
+					break
+				}
+				res := rt.Results[idx]
+				if c, isC := unwrap(res).(*ssa.Const); isC && c.IsNil() {
+					continue // the caller cannot dereference this one without its own check
+				}
+				r2, p2 := accessPath(res)
+				if r2 == root {
+					okAll = false
+					break
+				}
+				ok, w := rv.resolve(callee, rt, r2, append(append([]string{}, p2...), path...), nil, depth+1, " ← returned by "+shortFunc(callee)+trail)
+				if !ok {
+					okAll = false
+					break
+				}
+				n++
+				why = w
+			}
+			if okAll && n > 0 {
+				return true, why
+			}
 		}
 		// DeepCopy: nil-ness of field paths carries over from the receiver
 		if callee.Name() == "DeepCopy" && callee.Signature.Recv() != nil && len(call.Call.Args) == 1 {
@@ -2800,6 +3310,61 @@ func (rv *c16Resolver) nonNilAt(fn *ssa.Function, site ssa.Instruction, root ssa
 	}
 	run(site.Block(), in[site.Block()], true)
 	return at[site]
+}
+
+// copyOfSibling: at every call site of fn the argument for parameter x is the result of DeepCopy on
+// the very value passed for another parameter (and the copy's path is not written in between).
+// Returns that other parameter.
+func (rv *c16Resolver) copyOfSibling(fn *ssa.Function, x *ssa.Parameter, sites []ssa.CallInstruction, path []string) *ssa.Parameter {
+	if len(sites) == 0 {
+		return nil
+	}
+	idx := paramIndex(x)
+	var sib *ssa.Parameter
+	for _, cs := range sites {
+		args := cs.Common().Args
+		if idx >= len(args) {
+			return nil
+		}
+		var src ssa.Value
+		for _, c := range dChains(args[idx], true) {
+			if len(c.Path) != 0 {
+				return nil
+			}
+			call, ok := c.Root.(*ssa.Call)
+			if !ok {
+				return nil
+			}
+			callee := staticCallee(&call.Call)
+			if callee == nil || callee.Name() != "DeepCopy" || callee.Signature.Recv() == nil || len(call.Call.Args) != 1 {
+				return nil
+			}
+			if src != nil && src != unwrap(call.Call.Args[0]) {
+				return nil
+			}
+			src = unwrap(call.Call.Args[0])
+			if c16PathStoredIn(cs.Parent(), call, path) {
+				return nil
+			}
+		}
+		if src == nil {
+			return nil
+		}
+		found := false
+		for j, a := range args {
+			if j != idx && j < len(fn.Params) && unwrap(a) == src {
+				if sib != nil && sib != fn.Params[j] {
+					return nil
+				}
+				sib = fn.Params[j]
+				found = true
+			}
+		}
+		if !found {
+			return nil
+		}
+	}
+	return sib
 }
 
 // c16PathStoredIn reports whether fn stores to root.path or a prefix of it.
